@@ -102,6 +102,36 @@ pub fn check(id: &str, tier: &str, seed: u64) -> Option<i32> {
                 vec![],
             ))
         }
+        "C16" => {
+            let mut g = crash_profile();
+            g.max_ops = if thorough { 25 } else { 14 };
+            g.w.reopen = 1;
+            let cases = if thorough { 9600 } else { 960 };
+            let out = explore_generic(
+                || crate::fault::strategy(&g),
+                cases,
+                seed,
+                if thorough { 200 } else { 80 },
+                |c: &crate::spec::Case| crate::fault::run(c, thorough),
+                crate::fault::nontrivial,
+                &crate::runner::load_known("C16"),
+                crate::runner::summarize_case,
+                900_000,
+            );
+            let inj = out.hist.get("fault.injected").copied().unwrap_or(0);
+            Some(finish_generic(
+                "C16",
+                "fault",
+                tier,
+                seed,
+                "fault_enumeration",
+                "generated histories whose LAST op is the target (flush, leveled/major/move-down/pull-down compaction, drop_range, clear, ingestion incl. blob relocation) on standard and blob trees. A clean run counts the intercepted calls n of the target (creates, writes, fsyncs, renames, unlinks, mkdirs, opens, reads/preads); ENUMERATED: each k < n (cap 400/2000 per target, strided beyond) x errno in {ENOSPC, EIO} (EIO only for reads): the prefix is re-executed in a fresh directory and the target runs with call k failing once. Oracle: if the call returns Err, every point read, full scan and live snapshot equals its pre-call answer (model), nothing stays hidden (is_compacting false), a copy of the directory reopens to the durable state before or after the call, repeating the call returns Ok and reads/reopen equal the post-call model; if it returns Ok despite the fault, reads and reopen equal the post-call model; a panic is reported; the tree accepts a further write+flush. Faulted runs whose call sequence diverged before the fault fired are discarded and counted. evaluations = histories, injected faults in coverage.faults_injected. Non-trivial = a fault landed after the first output file was created and before the target's last call, and the op returned Err. Distinct = hash of the case.",
+                &["faults are single, transient and reported through errno on the interposed libc call (no short writes, no silent corruption)", "the target op's call sequence is deterministic across runs (checked; divergent runs discarded and counted)", "bounded sizes; not a proof"],
+                out,
+                json!({"faults_injected": inj}),
+                vec![],
+            ))
+        }
         _ => None,
     }
 }
@@ -167,6 +197,10 @@ pub fn replay(id: &str, path: &Path) -> Option<i32> {
         "C05" => {
             let case: crate::spec::Case = serde_json::from_value(v["case"].clone()).ok()?;
             Some(report(crate::crash::run(&case, true)))
+        }
+        "C16" => {
+            let case: crate::spec::Case = serde_json::from_value(v["case"].clone()).ok()?;
+            Some(report(crate::fault::run(&case, true)))
         }
         _ => None,
     }
